@@ -426,6 +426,11 @@ def run_case(case, ctx):
             ctx.count("count:construct:fractional-values")
         elif "default_value" in kw and rng.random() < 0.2 and dname not in UDTYPES:
             kw["default_value"] = rng.choice([lambda v: True, lambda v: False])      # booleans as defaults next to integer given values
+        if rng.random() < 0.15 and all(isinstance(v_, int) for v_ in vv.values()):
+            # other mapping types a caller may hold the values in (they are dicts): ids that are not keys get the default
+            import collections
+            vv = rng.choice([collections.Counter, lambda d_: collections.defaultdict(int, d_), collections.OrderedDict])(vv)
+            ctx.count("count:construct:dict-subclass")
         ctx.call("construct", arr.construct, vv, **kw)
     elif kind in ("ifrom", "bfrom"):
         ctxt = ids
